@@ -4,7 +4,7 @@ import ast
 from sa.loader import AnalysisError, norm, walk_local
 from sa.cfg import cfg_of
 from sa.spec import logical as spec
-from .common import analysis, names_in, str_consts_compared
+from .common import assigned_values, analysis, names_in, str_consts_compared
 
 PROP = "C20"
 TECHNIQUE = "exhaustiveness of the type-directed generator against the writers' table; interval containment of every random.randint with constant-folded bounds in the validator's interval and the logical reader's domain; CFG count rule; parse-before-generate with the threaded name table"
@@ -32,17 +32,62 @@ def run(ctx):
     last = [n for n in walk_local(g.node) if isinstance(n, ast.Return) and isinstance(n.value, ast.Call) and norm(n.value.func) == "gen_data" and "named_schemas[" in norm(n.value.args[0])]
     ctx.check("C20.R1", "by-name references are generated from named_schemas[name]", len(last) == 1, g.where(), "gen_data: by-name arm", "references to named types cannot be generated")
     lts = str_consts_compared(g.node, "logical_type")
+    # keys of tables looked up in gen_data (a table-driven special-casing)
+    table_keys = set()
+    for n in ast.walk(g.node):
+        tbl = None
+        if isinstance(n, ast.Call) and isinstance(n.func, ast.Attribute) and n.func.attr == "get" and n.args:
+            tbl = n.func.value
+        elif isinstance(n, ast.Subscript) and not isinstance(n.slice, ast.Constant):
+            tbl = n.value
+        elif isinstance(n, ast.Compare) and len(n.ops) == 1 and isinstance(n.ops[0], (ast.In, ast.NotIn)):
+            tbl = n.comparators[0]
+        if tbl is not None:
+            folded = p.try_fold(umod, tbl, None)
+            if isinstance(folded, dict):
+                table_keys |= {k for k in folded if isinstance(k, str)}
     for lt in sorted(spec.RESTRICTED):
-        ctx.check("C20.R1", f"logical type {lt} is special-cased", lt in lts, g.where(), f"gen_data lacks {lt}", f"values drawn from the whole base type do not fit the {lt} reader's domain")
+        inst = f"logical type {lt} is special-cased"
+        if lt in lts or lt in table_keys:
+            ctx.holds("C20.R1", inst, g.where())
+        elif table_keys:
+            ctx.unrecognised("C20.R1", inst, g.where(), f"gen_data uses lookup tables with keys {sorted(table_keys)[:6]}..; {lt} is not among them and is not compared literally")
+        else:
+            ctx.violation("C20.R1", inst, g.where(), f"gen_data lacks {lt}", f"values drawn from the whole base type do not fit the {lt} reader's domain")
 
     ctx.rule("C20.R2", "every randint(a, b) lies inside the base type's interval and the logical reader's domain", floor=8)
     cfg = cfg_of(g)
     n_r = 0
+    todo = []
     for n in walk_local(g.node):
-        if not (isinstance(n, ast.Call) and norm(n.func) == "random.randint" and len(n.args) == 2):
+        if not (isinstance(n, ast.Call) and norm(n.func) == "random.randint"):
             continue
+        if len(n.args) == 2 and not any(isinstance(x, ast.Starred) for x in n.args):
+            todo.append((n, n.args[0], n.args[1]))
+        elif len(n.args) == 1 and isinstance(n.args[0], ast.Starred):
+            # randint(*bounds): every pair the bounds expression can denote (a table of pairs looked up by key)
+            src_ = n.args[0].value
+            vals = assigned_values(g.node, src_.id) if isinstance(src_, ast.Name) else [src_]
+            pairs = []
+            for v in vals:
+                tbl = v.func.value if isinstance(v, ast.Call) and isinstance(v.func, ast.Attribute) and v.func.attr == "get" else (v.value if isinstance(v, ast.Subscript) else None)
+                folded = p.try_fold(umod, tbl, None) if tbl is not None else p.try_fold(umod, v, None)
+                if isinstance(folded, dict):
+                    pairs += [x for x in folded.values()]
+                elif isinstance(folded, (tuple, list)) and len(folded) == 2 and all(isinstance(x, int) for x in folded):
+                    pairs.append(tuple(folded))
+                else:
+                    pairs = None
+                    break
+            if not pairs or not all(isinstance(x, (tuple, list)) and len(x) == 2 for x in pairs):
+                ctx.unrecognised("C20.R2", f"gen_data: {norm(n)}", g.where(n), "bounds of a starred randint do not fold to a table of pairs")
+                n_r += 1
+                continue
+            for lo_, hi_ in pairs:
+                todo.append((n, ast.Constant(value=lo_), ast.Constant(value=hi_)))
+    for n, a0, a1 in todo:
         n_r += 1
-        lo, hi = p.try_fold(umod, n.args[0], "<x>"), p.try_fold(umod, n.args[1], "<x>")
+        lo, hi = p.try_fold(umod, a0, "<x>"), p.try_fold(umod, a1, "<x>")
         guards = [(norm(t.ast), lab) for (t, lab) in cfg.guards_of(cfg.node_of(n)) if t.kind == "test"]
         base = None
         for gt, lab in guards:
